@@ -17,7 +17,7 @@ UNVERIFIED = [
 ]
 ASSUMPTIONS = ['actions are created through try_new (size_delta_usd capped by or rejected against the position size)', 'a failed action is rolled back by the runtime (the model itself is not failure-atomic)']
 MANIFEST = dict(engine='verus',
-    technique='Verus contracts on the whole IncreasePosition::execute / process_collateral / initialize_position_if_empty and DecreasePosition::execute (up to the report) / check_partial_close / is_remaining_size_too_small / check_close / try_new / DecreasePositionFlags::init, PositionExt::size_delta_in_tokens, PositionMutExt::update_open_interest and PerpMarketMutExt::apply_delta_to_open_interest, extracted from /repo each run onto carriers; native replay: seeded pseudo-random histories of real increases/decreases of eight positions on TestMarket<u128,20>, sums compared after every step',
+    technique='(plus, for C13: a ghost log of total-borrowing updates on the position carrier - each action updates the total exactly once, before its size / factor writes, with the values it ends with) Verus contracts on the whole IncreasePosition::execute / process_collateral / initialize_position_if_empty and DecreasePosition::execute (up to the report) / check_partial_close / is_remaining_size_too_small / check_close / try_new / DecreasePositionFlags::init, PositionExt::size_delta_in_tokens, PositionMutExt::update_open_interest and PerpMarketMutExt::apply_delta_to_open_interest, extracted from /repo each run onto carriers; native replay: seeded pseudo-random histories of real increases/decreases of eight positions on TestMarket<u128,20>, sums compared after every step',
     text='Deductive proof, unbounded over all position and market states, sizes, prices and flags: an increase adds exactly size_delta_usd / size_delta_in_tokens / the collateral delta to the position AND to the open-interest, open-interest-in-tokens and collateral-sum entries of its side and collateral token, and a decrease subtracts exactly the same amounts from both; no other side or collateral token is touched. A decrease that would round the token size down to zero has been promoted to a full close (check_partial_close / is_remaining_size_too_small), so `should_remove` is reached only when both sizes are closed in full; a position reported as removed has zero size, zero tokens and zero collateral, one that stays has both sizes strictly positive.',
     note='Collateral processing, fees and the pnl estimate are assumed contracts (listed); the per-action statement is lifted to the sum over positions by induction (DESIGN 8.7).')
 
